@@ -661,6 +661,23 @@ func runC20(r *core.Run) {
 			b, _ := json.Marshal(map[string]any{"quote": m["quote"], "outputs": outsJSON(client.Outputs(rng, act.Id, client.Split(1023)))})
 			return b
 		})
+		// a large response (100 one-sat outputs: about 40 kB) is replayed like a small one
+		if lq, lh := newQuote(100, ""); lh != "" {
+			world.PayInvoice(lh)
+			amts := make([]uint64, 100)
+			for i := range amts {
+				amts[i] = 1
+			}
+			lbody, _ := json.Marshal(map[string]any{"quote": lq, "outputs": outsJSON(client.Outputs(rng, act.Id, amts))})
+			first := c.do("POST", "/v1/mint/bolt11", lbody)
+			if c.expect200("POST /v1/mint/bolt11 (100 outputs)", first) {
+				c.r.Count("large_response_bytes", int64(len(first.raw)))
+				c.cache(rng, "mint-large", "/v1/mint/bolt11", lbody, first.raw, func() []byte {
+					b, _ := json.Marshal(map[string]any{"quote": lq, "outputs": outsJSON(client.Outputs(rng, act.Id, amts))})
+					return b
+				})
+			}
+		}
 		// a melt is never served from a cache: replay of the paid melt must be executed and refused
 		rb, _ := json.Marshal(map[string]any{"quote": mq2, "inputs": proofsJSON(m2)})
 		rp := c.do("POST", "/v1/melt/bolt11", rb)
